@@ -416,7 +416,7 @@ func (l *ledgers) checkTransferInProgress(ni *nodeInc) {
 	}
 }
 
-func (l *ledgers) onTimeoutNowEnter(ni *nodeInc, req *timeoutNowReq) {
+func (l *ledgers) onTimeoutNowEnter(ni *nodeInc, req *timeoutNowReq, deadline time.Time) {
 	run := l.run
 	src := run.node(req.src)
 	if src == nil || !src.inc.live() {
@@ -425,6 +425,12 @@ func (l *ledgers) onTimeoutNowEnter(ni *nodeInc, req *timeoutNowReq) {
 	L := src.inc.r
 	if L.state != Leader || L.term != req.term || !L.ldr.transfer.inProgress() {
 		run.reach("timeout_now_stale")
+		return
+	}
+	if !deadline.Equal(L.ldr.transfer.deadline) {
+		// the sending goroutine of an earlier transfer, scheduled late: its designation was made
+		// (and judged) then; by now that transfer is over and the request carries an expired deadline
+		run.reach("timeout_now_of_earlier_transfer")
 		return
 	}
 	R := ni.r
